@@ -93,6 +93,8 @@ def random_case(rng, tier):
         opts['late_output'] = True
     if rng.random() < 0.2:
         opts['cleanup_registers'] = True
+    if rng.random() < 0.15:
+        opts['listener_closes'] = True
     case_fault = None
     if rng.random() < 0.15:
         # one listener fails in a notification: nothing about the process changes and the OTHER listener is still told
